@@ -366,7 +366,7 @@ def c19_build(seed, tier):
     r = g.r
     c = gen_component(g, ["i0", "i1"][: r.randint(1, 2)], ["o0", "o1"][: r.randint(1, 2)])
     d = contract_data(c)
-    edit = r.choice(["none", "permute_in", "permute_out", "change_in", "change_out", "coef", "const", "term_order", "neg_zero", "drop_term"])
+    edit = r.choice(["none", "permute_in", "permute_out", "change_in", "change_out", "move_in_to_out", "move_out_to_in", "coef", "const", "term_order", "neg_zero", "drop_term"])
     e = json.loads(json.dumps(d))
     if edit == "permute_in" and len(e["in"]) > 1:
         e["in"].reverse()
@@ -376,6 +376,13 @@ def c19_build(seed, tier):
         e["in"].append("extra_in")
     elif edit == "change_out":
         e["out"].append("extra_out")
+    elif edit in ("move_in_to_out", "move_out_to_in"):
+        # the same variables in the same overall order, split differently between inputs and outputs; a variable is added at the
+        # boundary (used by no constraint) so that both splits are well formed
+        d["in"].append("mid")
+        e["out"].insert(0, "mid")
+        if edit == "move_out_to_in":
+            d, e = e, d
     elif edit == "coef" and e["g"]:
         k = sorted(e["g"][0][0])[0]
         e["g"][0][0][k] += 1.0
@@ -589,7 +596,7 @@ RULES = {
     "C11": "constraint lists over 1-4 variables; behaviours with dyadic values placed on, 1/8 inside, 1/8 outside and 1 away from a boundary, with missing and extra variables; emptiness of systems with margins 0, +-1e-3, +-0.5, +-1; answers compared with exact rational arithmetic / z3",
     "C12": "satisfiable and unsatisfiable contracts over up to 5 variables, objectives with 1-3 small-integer coefficients in three spellings, both directions; compared with z3 Optimize (exact) within 1e-6 relative",
     "C16": "(source,target) pairs: fresh, existing input, existing output, absent, equal, swaps through a temporary, round trips; via rename_variable and rename_variables; meaning compared with a reference substitution by z3",
-    "C19": "contracts and single-field edits of them (permute/change inputs, outputs, one coefficient, one constant, term order, sign of a zero constant, dropped term); symmetry, field-wise iff, hash congruence, copy equality",
+    "C19": "contracts and single-field edits of them (permute/change inputs, outputs, the same variable as last input or as first output, one coefficient, one constant, term order, sign of a zero constant, dropped term); symmetry, field-wise iff, hash congruence, copy equality",
     "C17": "compound contracts with 1-3 alternatives per side over up to 4 variables: disjoint, touching, overlapping, empty; contains / <= / merge / disjointness check compared with z3",
 }
 
